@@ -55,7 +55,11 @@ def handlePhase (st : DState) (op : String) (j : Json) : Except String Json := d
       | .ok a => pure a
       | .error e => throw s!"post: {e}"
     let d := diffSim w.sim post ++ (if cmpEvents then diffEvents w.log evs else [])
-    let mon := monitorAll env post
+    let cap (i : MechId) : Option Rat := (mechOf st.mechs i).map (·.capacity)
+    let isEl (i : MechId) : Bool := match mechOf st.mechs i with
+      | some m => m.kind == .bev
+      | none => true
+    let mon := monitorAll env post ++ viol04 cap post ++ viol04Step pre post ++ viol05Step isEl pre post evs
     pure (Json.mkObj [("diff", strs d), ("mon", strs mon)])
 
 def handle (st : DState) (line : String) : DState × Json :=
